@@ -1,5 +1,7 @@
+//@file src/half_connection/mod.rs
+//@props C03 C06 C13
 #[cfg(test)]
-mod verif_replay {
+mod verif_native {
     use super::*;
     use crate::frame::{Datagram, DataFrame, AckFrame, SyncFrame, AckGroup};
     use crate::{MAX_FRAGMENT_SIZE, MAX_FRAME_WINDOW_SIZE, MAX_PACKET_WINDOW_SIZE};
@@ -23,7 +25,7 @@ mod verif_replay {
 
     // D1: hostile datagram claiming more fragments than the receive allocation allows
     #[test]
-    fn d1_over_limit_fragment_count() {
+    fn verif_d1_over_limit_fragment_count() {
         let mut hc = HalfConnection::new(cfg(10_000));
         let dg = Datagram { sequence_id: 0, channel_id: 0, window_parent_lead: 0, channel_parent_lead: 0,
                             fragment_id: 0, fragment_id_last: 65535, data: vec![0u8; MAX_FRAGMENT_SIZE].into_boxed_slice() };
@@ -34,21 +36,21 @@ mod verif_replay {
 
     // D6: ack frame whose packet window base has bits above 2^20
     #[test]
-    fn d6_unmasked_packet_window_base() {
+    fn verif_d6_unmasked_packet_window_base() {
         let mut hc = HalfConnection::new(cfg(10_000));
         hc.handle_ack_frame(AckFrame { frame_window_base_id: 0, packet_window_base_id: 0x0010_0000, frame_acks: vec![] });
     }
 
     // D7: sync frame whose next_packet_id has bits above 2^20
     #[test]
-    fn d7_unmasked_next_packet_id() {
+    fn verif_d7_unmasked_next_packet_id() {
         let mut hc = HalfConnection::new(cfg(10_000));
         hc.handle_sync_frame(SyncFrame { next_frame_id: None, next_packet_id: Some(0x0010_0000) });
     }
 
     // D2: ack ahead of an unsent fragment, then flush (watchdog: must return within 5 s)
     #[test]
-    fn d2_ack_ahead_of_unsent_fragment() {
+    fn verif_d2_ack_ahead_of_unsent_fragment() {
         let (tx, rx) = std::sync::mpsc::channel();
         std::thread::spawn(move || {
             let mut hc = HalfConnection::new(cfg(10_000));
@@ -68,40 +70,11 @@ mod verif_replay {
         }
     }
 
-    // D8: a replayed ack group yields a bogus RTT sample
-    #[test]
-    fn d8_replayed_ack() {
-        let mut hc = HalfConnection::new(cfg(10_000));
-        let mut sink = NullFrameSink(0);
-        hc.send(vec![1u8; 10].into_boxed_slice(), 0, SendMode::Unreliable);
-        hc.flush_alloc = 10_000;
-        hc.emit_frames(1000, 100, 400, 0, &mut sink);
-        let nonce = hc.frame_queue.frame_log_nonce_for_test(0);
-        let g = AckGroup { base_id: 0, bitfield: 1, nonce };
-        hc.frame_queue.acknowledge_group(g.clone(), None);
-        let fb1 = hc.frame_queue.get_feedback(1050);
-        println!("first feedback: {:?}", fb1);
-        assert_eq!(fb1.as_ref().unwrap().rtt_ms, 50);
-        hc.frame_queue.acknowledge_group(g, None);     // exact replay
-        let fb2 = hc.frame_queue.get_feedback(60_000);
-        println!("feedback after replay: {:?}", fb2);
-        assert!(fb2.is_none(), "replayed ack produced feedback: {:?}", fb2);
-    }
 
-    // D12: pending ack groups grow without bound while nothing is flushed
-    #[test]
-    fn d12_ack_queue_unbounded() {
-        let mut hc = HalfConnection::new(cfg(10_000));
-        for k in 0..100_000u32 {
-            hc.handle_data_frame(DataFrame { sequence_id: k * 32, nonce: false, datagrams: vec![] });
-        }
-        println!("pending ack groups after 100000 sparse frames: {}", hc.frame_ack_queue.len_for_test());
-        assert!(hc.frame_ack_queue.len_for_test() <= 2 * MAX_FRAME_WINDOW_SIZE as usize);
-    }
 
     // D15: credit rounding lets the long-run rate exceed the ceiling under a fast step cadence
     #[test]
-    fn d15_credit_rounding() {
+    fn verif_d15_credit_rounding() {
         let mut c = cfg(10_000);
         c.tx_bandwidth_limit = 1472;                 // ceiling: one frame per second
         let mut hc = HalfConnection::new(c);
